@@ -61,7 +61,8 @@ type gcase struct {
 	id      int
 	g       *gram.Grammar
 	entries []entry
-	inline  bool // action code must also compile under -noast ("inline" action mode)
+	inline  bool   // action code must also compile under -noast ("inline" action mode)
+	rawText string // replay: use this grammar text verbatim (package clause renamed) instead of printing the AST
 	text    string
 	extra   map[string]any
 }
@@ -91,17 +92,18 @@ func ruleNames(g *gram.Grammar) []string {
 // family drives the corpus engine for the properties that compare generated parsers with the reference
 // interpreter: builds cases in batches, runs every (case, entry) under every config, calls judge.
 type family struct {
-	c           *ctx
-	tag         string
-	race        bool
-	configs     []config
-	variantSeed bool // print grammars with random spelling variants (C10's monitor 1 rides along)
-	batch       int
-	stdout      bool
-	refLimit    int
-	maxDepth    int // drop cases whose derivation nests deeper than this many rule applications (0 = no bound)
-	stateCode   func(cs *gcase) func(int) string
-	noexec      bool
+	c             *ctx
+	tag           string
+	race          bool
+	configs       []config
+	variantSeed   bool // print grammars with random spelling variants (C10's monitor 1 rides along)
+	batch         int
+	stdout        bool
+	refLimit      int
+	prepareReplay func(cs *gcase)
+	maxDepth      int // drop cases whose derivation nests deeper than this many rule applications (0 = no bound)
+	stateCode     func(cs *gcase) func(int) string
+	noexec        bool
 	// judge is called once per (case, entry) with the reference evaluation and the results by config name.
 	judge func(cs *gcase, e entry, it *ref.Interp, refOK bool, refEnd int, res map[string]*corpus.Res)
 	// onJob lets the property look at the generation result of each package (C08 style observations).
@@ -126,6 +128,17 @@ func (f *family) variants() []variant {
 func pkgName(caseID int, v variant) string { return fmt.Sprintf("c%dv%s", caseID, v.name) }
 
 func (f *family) run(cases []*gcase) {
+	if f.c.replay != "" {
+		// --replay: the recorded witness replaces the generated workload
+		cases = []*gcase{replayCase(f.c)}
+		if f.prepareReplay != nil {
+			f.prepareReplay(cases[0])
+		}
+	}
+	if f.c.replay == "" {
+		// committed regression witnesses of this property (inputs on which repaired defects used to show) always run
+		cases = append(cases, regressionCases(f.c, len(cases), f.prepareReplay)...)
+	}
 	if f.batch == 0 {
 		f.batch = 120
 	}
@@ -160,6 +173,9 @@ func (f *family) runBatch(peg string, cases []*gcase, vs []variant, bno int) {
 				po.StateCode = f.stateCode(cs)
 			}
 			text := gram.PrintGrammar(cs.g, po)
+			if cs.rawText != "" {
+				text = pkgClause.ReplaceAllString(cs.rawText, "package "+pkg)
+			}
 			if v.name == vs[0].name {
 				cs.text = text
 			}
